@@ -5,8 +5,12 @@ EXTENDS Music
 NoteCands(Chs, Ps, Starts, Durs, Vels) ==
     {[ch |-> c, p |-> p, s |-> s, e |-> s + d, v |-> v] : c \in Chs, p \in Ps, s \in Starts, d \in Durs, v \in Vels}
 
-(* all sets of at most n pairwise non-overlapping notes *)
-NoteSets(cands, n) == UNION {{N \in kSubset(k, cands) : NoOverlap(N)} : k \in 0 .. n}
+(* all sets of at most n <= 3 pairwise non-overlapping notes
+(kSubset's Java override fails for base sets of more than ~60 elements, hence the explicit form) *)
+SubsetsUpTo3(S, n) == {{}} \cup (IF n >= 1 THEN {{a} : a \in S} ELSE {})
+                           \cup (IF n >= 2 THEN {{a, b} : a \in S, b \in S} ELSE {})
+                           \cup (IF n >= 3 THEN {{a, b, c} : a \in S, b \in S, c \in S} ELSE {})
+NoteSets(cands, n) == {N \in SubsetsUpTo3(cands, n) : NoOverlap(N)}
 
 Rank(ty) == CASE ty = "int" -> 0 [] ty = "ks" -> 2 [] ty = "ts" -> 3 [] ty = "cc" -> 4 [] ty = "pc" -> 5
               [] ty = "off" -> 6 [] ty = "on" -> 7 [] OTHER -> 1
